@@ -107,6 +107,17 @@ class FortranExpressionMapper(StringifyMapper):
                 self.join_rec(" * ", expr.children, PREC_PRODUCT, *args, **kwargs),
                 enclosing_prec, PREC_PRODUCT)
 
+    def map_comparison(self, expr, enclosing_prec):
+        # Fortran spells "not equal" as "/="; "!" starts a comment.
+        from pymbolic.mapper.stringifier import PREC_COMPARISON
+        operator = "/=" if expr.operator == "!=" else expr.operator
+        return self.parenthesize_if_needed(
+                self.format("%s %s %s",
+                    self.rec(expr.left, PREC_COMPARISON),
+                    operator,
+                    self.rec(expr.right, PREC_COMPARISON)),
+                enclosing_prec, PREC_COMPARISON)
+
     def map_logical_not(self, expr, enclosing_prec):
         from pymbolic.mapper.stringifier import PREC_UNARY
         return self.parenthesize_if_needed(
